@@ -53,6 +53,7 @@ def formula_check(tier, seed):
     from dnplab.math import window as W
     rng = random.Random(seed * 7919 + 115)
     ops, wants = [], []
+    del FAILS[:]
     ns = [2, 3, 9, 64] if tier == "quick" else [2, 3, 4, 5, 9, 16, 64, 257, 512]
     for n in ns:
         for dtq in (Fraction(1), Fraction(1, 8), Fraction(1, 4096)):
@@ -66,7 +67,24 @@ def formula_check(tier, seed):
                     if kind in ("hann", "hamming", "sin2") and lw != LWS[0]:
                         continue
                     ops.append(dict({"op": "window", "kind": kind, "x": [str(v) for v in x]}, **par))
-                    wants.append(getattr(W, kind)(xf, **{k: float(Fraction(v)) for k, v in par.items()}))
+                    with np.errstate(all="ignore"):
+                        wv = getattr(W, kind)(xf, **{k: float(Fraction(v)) for k, v in par.items()})
+                    wants.append(wv)
+                    # the property's own clauses on the window the implementation evaluates (all parameters >= 0, ascending axis):
+                    # a decaying window lies in [0, 1], so it is finite for ANY line width and axis start; first point 1; no increase
+                    if kind in ("exponential", "hann", "hamming", "sin2") or (kind == "gaussian" and x0 == 0):
+                        wv = np.asarray(wv, dtype=float)
+                        why = None
+                        if not np.all(np.isfinite(wv)):
+                            why = "window-not-finite"
+                        elif abs(wv[0] - 1.0) > 1e-12:
+                            why = "first-point-not-one"
+                        elif np.any(np.diff(wv) > 1e-12):
+                            why = "window-increases"
+                        if why:
+                            key = "C15:%s:window.%s" % (why, kind)
+                            if key not in {f["key"] for f in FAILS}:
+                                FAILS.append({"key": key, "clause": key, "ops": [dict({"kind": kind, "x0": str(x0), "dt": str(dtq), "n": n}, **par)]})
     outs, _ = run_model(ops)
     bad = []
     for op, o, w in zip(ops, outs, wants):
@@ -84,9 +102,13 @@ P = StreamProperty("C15", [ApodOracle, ConsistencyOracle], streams, RULE, ("C15"
                    lambda ops: len(ops[0]["dims"]) >= 2 or ops[0]["shape"][0] > 8)
 
 
+FAILS = []
+
+
 def run(tier, seed, escalate=False):
     res = P.run(tier, seed, escalate)
     n, bad = formula_check("thorough" if escalate else tier, seed)
+    res["impl_failures"] += [f for f in FAILS if f["key"] not in {g["key"] for g in res["impl_failures"]}]
     res["evaluations"] += n
     for b in bad:
         b.setdefault("stream", -1); b["explained_by_known"] = False
